@@ -208,6 +208,39 @@ def _rand_assign(rng, syms, k):
     return out
 
 
+_SEM_CACHE = {}
+
+
+def semantic_verdict(contract, shape, rng):
+    """Contracts whose clauses speak about HOW a result is obtained (which operand reaches a stubbed kernel, in which order, how often) offer `semantic(rng, shape)`:
+    an end-to-end run of the real functions WITHOUT stubs against an independent oracle, returning (ok, witness). A failed 'how' clause is reported as a violation only
+    if that run fails too; if the end-to-end behaviour is right the code is merely organised differently from what the clause is phrased for -> undecided."""
+    key = (id(contract), repr(shape))
+    if key not in _SEM_CACHE:
+        try:
+            ok, wit = contract.semantic(rng, shape)
+        except Exception as ex:
+            if not from_repo(ex):
+                raise
+            ok, wit = False, dict(exception=f'{type(ex).__name__}: {ex}')
+        _SEM_CACHE[key] = (bool(ok), wit)
+    return _SEM_CACHE[key]
+
+
+def how_clause(contract, name):
+    return hasattr(contract, 'semantic') and not any(name.startswith(d) for d in getattr(contract, 'direct_clauses', ()))
+
+
+def _how_result(contract, shape, rng, oid, funcs, name, detail):
+    ok, wit = semantic_verdict(contract, shape, rng)
+    if ok:
+        return ob(oid, 'undecided', engine_suspect=True, functions=funcs, tier='P', backend='sympy+native',
+                  detail=f'clause {name} (about the internal organisation of the computation) fails, but the end-to-end behaviour of the real functions agrees with the independent oracle: '
+                         f'the code is organised differently from what this clause is phrased for. {detail}'[:900])
+    return ob(oid, 'refuted', functions=funcs, tier='P', backend='sympy+native', witness=jsonable(wit), native=dict(confirmed=True, failed=[name], info='end-to-end run against the independent oracle fails'),
+              detail=f'clause {name} fails and the end-to-end behaviour disagrees with the independent oracle. {detail}'[:900])
+
+
 def verify_identity(contract, shape, tier, rng, crosscheck=2, bounded_samples=0):
     prop = contract.prop
     base = f'{prop}.{contract.name}'
@@ -226,6 +259,9 @@ def verify_identity(contract, shape, tier, rng, crosscheck=2, bounded_samples=0)
         return [ob(f'{base}.explore[{sh}]', 'undecided', functions=funcs, tier='P', detail=f'engine: {ex}', time_s=time.time() - t0, backend='sympy')]
     except Exception as ex:
         tb = ''.join(traceback.format_exception(ex))[-1500:]
+        if not from_repo(ex) and hasattr(contract, 'semantic') and isinstance(ex, (IndexError, KeyError, TypeError, AttributeError, ValueError)):
+            # the recorders of a 'how' contract were not reached the way the contract reads them (restructured code): the end-to-end run decides
+            return [_how_result(contract, shape, rng, f'{base}.recorders_reached[{sh}]', funcs, 'recorders_reached', f'{type(ex).__name__}: {ex} | {tb[-400:]}')]
         if not from_repo(ex):
             return [ob(f'{base}.harness[{sh}]', 'fault', functions=funcs, tier='P', detail='exception outside /repo code: ' + tb, backend='sympy')]
         # the real code raises on symbolic input: confirm natively on a sampled input
@@ -244,6 +280,9 @@ def verify_identity(contract, shape, tier, rng, crosscheck=2, bounded_samples=0)
             out.append(_inequality(contract, oid, funcs, cl, hyps, inputs, rng, shape))
             continue
         a, sa = _flat(lhs); b, sb = _flat(rhs)
+        if (sa != sb or len(a) != len(b)) and how_clause(contract, name):
+            out.append(_how_result(contract, shape, rng, oid, funcs, name, f'shape mismatch {sa} vs {sb}'))
+            continue
         if sa != sb or len(a) != len(b):
             conc = contract.sample(rng, shape)
             ok, failed, info = native_check(contract, conc)
@@ -271,6 +310,9 @@ def verify_identity(contract, shape, tier, rng, crosscheck=2, bounded_samples=0)
             continue
         # refuted symbolically: look for a concrete failing input and replay it natively
         k, d = bad
+        if how_clause(contract, name):
+            out.append(_how_result(contract, shape, rng, oid, funcs, name, f'entry {k}: lhs - rhs = {str(d)[:300]}'))
+            continue
         wit = None
         for t in range(12):
             asg = _rand_assign(rng, syms, t)
@@ -298,6 +340,11 @@ def verify_identity(contract, shape, tier, rng, crosscheck=2, bounded_samples=0)
         for _ in range(crosscheck):
             conc = contract.sample(rng, shape)
             ok, failed, info = native_check(contract, conc)
+            if not ok and all(how_clause(contract, f_) for f_ in failed):
+                o_ = _how_result(contract, shape, rng, f'{base}.{failed[0]}[{sh}]#sample', funcs, failed[0], 'run-time form of the clause on a sampled input')
+                o_['tier'] = 'B'
+                out.append(o_)
+                continue
             if not ok:
                 out.append(ob(f'{base}.{failed[0]}[{sh}]#sample', 'refuted', functions=funcs, tier='B', backend='native', witness=jsonable(conc),
                               native=dict(confirmed=True, failed=failed, info=info), detail='run-time contract failed on a sampled input'))
